@@ -15,6 +15,11 @@ RULE = ("raw instruction words built from encoding tables written from the manua
         "$ra / the jalr link register, ALU, load, store, trapping add); plus a sweep of every (opcode, function) pair with "
         "random remaining bits. States: every architectural register defined at 32 bits (boundary + random values), "
         "memory operands steered into 40-byte windows (aligned, and on purpose misaligned), INT_MIN/-1 and zero divisors. "
+        "Aliasing/boundary grid (every non-branch form with a destination and a source): destination = source in all patterns "
+        "(rd=rs, rd=rt, rs=rt, all three equal; registers 0, 2, 4, 31) x source values {0,1,0x7fffffff,0x80000000,0xffffffff}^2 x "
+        "every value of the implicit inputs (PPC: CA in {0,1} for every form, Rc in {0,1}; branches: the tested CR bit x CTR in "
+        "{0,1,2,0x80000000,0xffffffff} x LR; MIPS: six HI/LO pairs for madd/maddu/msub/msubu/mfhi/mflo). CA, CR bits, LR, CTR, "
+        "HI, LO are always part of the compared post-state. "
         "Each case: falcon lifts the bytes and falcon's executor runs the IL; the Lean IL semantics runs the dumped IL; the "
         "Lean ISA interpreter runs the raw word(s); the dumped IL is compared syntactically with the Lean mirror of the "
         "lifter. distinct = distinct request line; non-trivial = the lifter accepted the word and the post-state differs "
